@@ -141,13 +141,16 @@ def documents(tier):
     sc = [num(x) for x in NUMS] + [S(a, b) for a, b in LITS] + [S(a, b) for a, b in STRS]
     docs = []
     for s in sc:
+        isnum_ = s[1][0] in "-0123456789"
         shapes = [s, ("a", [s]), ("o", [(KEYS[0], s)])]
-        if not quick:
+        if quick:
+            shapes = [s] if isnum_ else [s, ("o", [(KEYS[0], s)])]
+        else:
             shapes.append(("a", [S("1", 1), s, ("o", [(KEYS[1], s)])]))
         for t in shapes:
             docs.append(t)
     fams.append(("scalars", "all", [mk(t) for t in docs]))
-    keys = KEYS[:9] + [KEYS[11], KEYS[12]] if quick else KEYS
+    keys = [KEYS[i] for i in (0, 1, 2, 4, 6, 9, 11, 12)] if quick else KEYS
     docs = [("o", [(k1, S("1", 1)), (k2, S("2", 2))]) for k1 in keys for k2 in keys]
     sub = [KEYS[0], KEYS[4], KEYS[1], KEYS[2], KEYS[11], KEYS[12]]
     if not quick:
@@ -159,23 +162,23 @@ def documents(tier):
     fams.append(("trees", "all", [mk(t) for t in jtrees(3 if quick else 4)]))
     wsdocs = []
     base = ("o", [(KEYS[0], ("a", [S("1", 1), ("o", [(KEYS[1], S('"x"', "x"))]), ("a", [])])), (KEYS[1], ("o", []))])
-    for ws in [" ", "\n", "\r\n", "\t", " \n\t\r "]:
+    for ws in ([" ", "\r\n", " \n\t\r "] if quick else [" ", "\n", "\r\n", "\t", " \n\t\r "]):
         wsdocs.append(mk(base, ws, ws))
         wsdocs.append(mk(S("1", 1), "", ws))
     fams.append(("whitespace", "all", wsdocs))
     # nesting families
     leafs = [("1", 1, True), ('"é"', "é", True), ("[]", [], True), ("{}", {}, True)]
     mid = []
-    for d in ([1, 2, 3, 64, 128] if quick else [1, 2, 3, 63, 64, 65, 127, 128, 129]):
+    for d in ([1, 2, 3, 64] if quick else [1, 2, 3, 63, 64, 65, 127, 128, 129]):
         for shape in ("arr", "obj") if quick else ("arr", "obj", "mixed"):
             for leaf in leafs[:1] if quick else leafs[:2]:
                 t, v, l = nest(shape, d, leaf)
                 mid.append((t.encode(), v, l, f"nest:{shape}:{d}"))
     fams.append(("nesting-moderate", "all", mid))
     lim = []
-    for d in ([254, 255, 256, 257, 300] if quick else [200, 254, 255, 256, 257, 258, 300, 385, 1000]):
+    for d in ([128, 129, 255, 256, 257, 300] if quick else [200, 254, 255, 256, 257, 258, 300, 385, 1000]):
         for shape in ("arr", "obj") if quick else ("arr", "obj", "mixed"):
-            for leaf in ([leafs[0], leafs[2]] if quick else leafs):
+            for leaf in ([leafs[0], leafs[2]] if quick and d >= 255 else leafs[:1] if quick else leafs):
                 t, v, l = nest(shape, d, leaf)
                 lim.append((t.encode(), v, l, f"nest:{shape}:{d}"))
     fams.append(("nesting-limit", "limit-quick" if quick else "limit", lim))
